@@ -78,6 +78,8 @@ deriving Repr, DecidableEq
 
 def Point.zero : Point := ⟨0, 1, 1, 0⟩
 
+instance : Inhabited Point := ⟨Point.zero⟩
+
 /-- Completed (P1xP1) element as produced by add/sub/double. -/
 structure Completed where
   X : Nat
@@ -257,8 +259,71 @@ def smul (k : Nat) (a : Point) : Point := (fromBytes (encode (slideMul k a))).1
 /-- the same with double-and-add (agrees with `smul` on curve points; kept for the theorems) -/
 def smulDA (k : Nat) (a : Point) : Point := (fromBytes (encode (smulAux a 256 k))).1
 
+/-! #### `GeScalarMultBase`: signed radix-16 recoding + table of multiples of B, as in the code -/
+
+/-- the 4-bit digits of a scalar, least significant first (`e[2i] = a[i] & 15`, `e[2i+1] = a[i] >> 4`) -/
+def nibblesAux : Nat → Nat → List Int
+  | 0, _ => []
+  | n + 1, k => ((k % 16 : Nat) : Int) :: nibblesAux n (k / 16)
+
+/-- the carry pass: `e[i] += carry; carry = (e[i] + 8) >> 4; e[i] -= carry << 4` for i < 63, then
+    `e[63] += carry` -/
+def recodeAux : List Int → Int → List Int
+  | [], _ => []
+  | [e], c => [e + c]
+  | e :: e' :: rest, c =>
+    let v := e + c
+    let c' := (v + 8) / 16
+    (v - c' * 16) :: recodeAux (e' :: rest) c'
+
+/-- the 64 signed digits (each in [−8, 8]) `GeScalarMultBase` works with -/
+def signedRadix16 (k : Nat) : List Int := recodeAux (nibblesAux 64 k) 0
+
+def evens : List Int → List Int
+  | [] => []
+  | [a] => [a]
+  | a :: _ :: rest => a :: evens rest
+
+def odds : List Int → List Int
+  | [] => []
+  | [_] => []
+  | _ :: b :: rest => b :: odds rest
+
+/-- one pass of `selectPoint` + `geMixedAdd` over the digits of one parity; `tbl pos d` = d·256^pos·B -/
+def accumDigits {P : Type} (add : P → P → P) (tbl : Nat → Int → P) : Nat → List Int → P → P
+  | _, [], acc => acc
+  | pos, d :: ds, acc => accumDigits add tbl (pos + 1) ds (add acc (tbl pos d))
+
+/-- `GeScalarMultBase` over any point operations: odd digits, four doublings, even digits. -/
+def baseMulWith {P : Type} (zero : P) (dbl : P → P) (add : P → P → P) (tbl : Nat → Int → P) (e : List Int) : P :=
+  let h := accumDigits add tbl 0 (odds e) zero
+  let h := dbl (dbl (dbl (dbl h)))
+  accumDigits add tbl 0 (evens e) h
+
+/-- −(X, Y, Z, T) -/
+def negPoint (q : Point) : Point := ⟨fneg q.X, q.Y, q.Z, fneg q.T⟩
+
+/-- 256^pos · B for pos = 0..31 (the code has the multiples precomputed in `const.go: base`; here they are
+    computed once from B) -/
+def basePows : Array Point :=
+  (List.range 31).foldl (fun (a : Array Point) _ =>
+    let q := a.back!
+    a.push (dbl (dbl (dbl (dbl (dbl (dbl (dbl (dbl q))))))))) #[basePoint]
+
+def basePow (pos : Nat) : Point := basePows[pos]!
+
+/-- `selectPoint(pos, d)`: |d|·256^pos·B, negated for d < 0, the neutral element for d = 0 -/
+def baseTable (pos : Nat) (d : Int) : Point :=
+  if d = 0 then Point.zero
+  else
+    let m := daWith Point.zero dbl add (basePow pos) 5 d.natAbs
+    if d < 0 then negPoint m else m
+
 /-- `GeScalarMultBase`. -/
-def smulBase (k : Nat) : Point := smulAux basePoint 256 k
+def smulBase (k : Nat) : Point := baseMulWith Point.zero dbl add baseTable (signedRadix16 k)
+
+/-- the same with double-and-add (kept for the theorems and the `smulb2` cross-check op) -/
+def smulBaseDA (k : Nat) : Point := smulAux basePoint 256 k
 
 /-- `ScReduce` / the reduction inside `ScMulAdd`. -/
 def scReduce (v : Nat) : Nat := v % L
